@@ -376,14 +376,67 @@ pub fn run(args: &Args) {
         sink.tag("corpus_odd_spellings");
     }
     let n = args.n(1200, 20000);
-    for _ in 0..n {
+    let system = reuse.dict_bytes.clone();
+    for k in 0..n {
         let defs = gen_defs(&mut rng);
         let text = render(&defs, &mut rng);
         let qs = queries(&defs, &mut rng, args.thorough());
         run_case(&mut sink, &defs, &text, &qs, false, &mut reuse);
+        if k % 60 == 0 {
+            run_configured(&mut sink, args, &defs, &text, &qs, &system);
+        }
     }
     malformed(&mut sink, &mut rng, args.n(200, 2000));
     sink.finish();
+}
+
+/// The definition file configured as `characterDefinitionFile` is the one analysis uses -- also when an OOV plugin reads a
+/// DIFFERENT definition file for its own category properties (`charDef` of MeCabOovPlugin): the dictionary is put together
+/// through the configuration route and the classes are read from its grammar.
+fn run_configured(sink: &mut Sink, args: &Args, defs: &[Def], text: &str, qs: &[u32], system: &[u8]) {
+    use crate::dictutil::{load_dictionary, prepare_resources};
+    let res = format!("{}/sudachi/tests/resources", repo());
+    let dir = args.work.join("c17cfg");
+    let _ = std::fs::remove_dir_all(&dir);
+    if prepare_resources(&dir, &res).is_err() {
+        return;
+    }
+    std::fs::write(dir.join("analysis_char.def"), text).unwrap();
+    // unk.def for the categories the plugin's own char.def defines, with ids inside the test matrix
+    std::fs::write(dir.join("unk.def"), "DEFAULT,5,5,3857,補助記号,一般,*,*,*,*\nALPHA,4,4,11633,名詞,普通名詞,一般,*,*,*\n").unwrap();
+    let pos = json!(["名詞", "普通名詞", "一般", "*", "*", "*"]);
+    for (vname, provs) in [
+        ("mecab-own-chardef", json!([{"class": "com.worksap.nlp.sudachi.MeCabOovPlugin", "charDef": "char.def", "unkDef": "unk.def", "userPOS": "allow"},
+                                     {"class": "com.worksap.nlp.sudachi.SimpleOovPlugin", "oovPOS": pos, "leftId": 8, "rightId": 8, "cost": 6000}])),
+        ("simple-only", json!([{"class": "com.worksap.nlp.sudachi.SimpleOovPlugin", "oovPOS": pos, "leftId": 8, "rightId": 8, "cost": 6000}])),
+    ] {
+        let cfg = json!({"characterDefinitionFile": "analysis_char.def", "oovProviderPlugin": provs});
+        let mut d = desc(defs, text);
+        d["configured"] = json!(vname);
+        sink.tag("through_configured_dictionary");
+        let id = sink.case_rust_only(d, defs.len() > 1);
+        match catch(|| load_dictionary(&dir, system.to_vec(), vec![], &cfg)) {
+            Ok(Ok(dict)) => {
+                for &c in qs {
+                    let ch = char::from_u32(c).unwrap();
+                    match catch(|| dict.grammar().character_category.get_category_types(ch).bits()) {
+                        Ok(got) if got == naive(defs, c) => {}
+                        Ok(got) => {
+                            sink.fail(id, &format!("dictionary configured with this definition file ({}): U+{:04X} has classes {:#x}, union of covering lines is {:#x}", vname, c, got, naive(defs, c)), "");
+                            break;
+                        }
+                        Err(p) => {
+                            sink.fail(id, &format!("dictionary configured with this definition file ({}): lookup of U+{:04X} panicked: {}", vname, c, p), "");
+                            break;
+                        }
+                    }
+                }
+            }
+            Ok(Err(e)) => sink.fail(id, &format!("a dictionary configured with this well-formed definition file ({}) did not load: {}", vname, e), ""),
+            Err(p) => sink.fail(id, &format!("loading a dictionary configured with this definition file ({}) panicked: {}", vname, p), ""),
+        }
+    }
+    let _ = std::fs::remove_dir_all(&dir);
 }
 
 /// independent re-reading of a shipped definition file (for the corpus cases only)
